@@ -111,9 +111,9 @@ def run(ctx):
     terms = []
     W, out, sched = F1_witness()
     run_one(ctx, W, out, scripted(sched), terms, 'corpus')
-    nex = exhaustive_small(ctx, terms, 5 if ctx.tier == 'quick' else 8)
+    nex = exhaustive_small(ctx, terms, 4 if ctx.tier == 'quick' else 7)
     ctx.count('exhaustive_runs', nex)
-    nrand = 250 if ctx.tier == 'quick' else 5000
+    nrand = 200 if ctx.tier == 'quick' else 5000
     for i in range(nrand):
         W = SC.gen_workflow(rng)
         out = SC.gen_outcome(rng, W)
